@@ -21,6 +21,7 @@ type Engine struct {
 	addrTakenCache    map[*ast.FuncDecl]map[types.Object]bool
 	baseSorts         map[string]string
 	strictAppendFrame bool
+	unroll            int
 	workDir           string
 	tier              string
 	timeoutS          int
@@ -119,7 +120,8 @@ func (e *Engine) verifyFunc(p *Pkg, con *FuncContract) *FnResult {
 	c.entry = st.clone()
 	c.oldState = c.entry
 	// vacuity: the preconditions must be satisfiable
-	if len(con.Requires) > 0 {
+	c.unroll = e.unroll
+	if len(con.Requires) > 0 && c.unroll == 0 {
 		save := c.curProp
 		c.curProp = "*"
 		c.oblige(st, "vacuity", "requires.sat", "false", fd.Pos(), "requires satisfiable")
@@ -380,6 +382,8 @@ func runSolverCtx(parent context.Context, name, file string, timeoutS int) solve
 	}
 	return solverRes{name, st, string(out), d}
 }
+
+func writeFile(path, content string) { os.WriteFile(path, []byte(content), 0o644) }
 
 func sanitizeFile(s string) string {
 	s = strings.NewReplacer("/", "_", " ", "_", "[", "(", "]", ")", "*", "x", "\"", "", "'", "", "&", "and", "|", "or", "<", "lt", ">", "gt", "!", "not", "$", "S", "`", "", "\\", "", ";", "", "{", "", "}", "", "?", "", "#", "-").Replace(s)
